@@ -103,6 +103,7 @@ type template struct {
 	HasMax    bool   `json:"has_max"`
 	Shared    bool   `json:"shared"`
 	Imported  bool   `json:"imported"`
+	Private   bool   `json:"private"` // local memory that is not exported
 	Data      []byte `json:"data"`
 
 	Vars     []baseVar      `json:"vars"`
@@ -214,6 +215,7 @@ func genTemplate(r *core.Rng) *template {
 	}
 	t.Shared = r.Chance(1, 6)
 	t.Imported = r.Chance(1, 3)
+	t.Private = !t.Imported && r.Chance(2, 5)
 	switch {
 	case t.Shared || r.Chance(2, 3):
 		t.HasMax = true
@@ -306,7 +308,7 @@ func genTemplate(r *core.Rng) *template {
 			first.SrcK = 0
 		}
 		g.budget--
-		grow := step{Kind: "call", Callee: []string{"grow", "hostgrow"}[r.Intn(2)], Pages: uint32(1 + r.Intn(int(t.MaxPages)))}
+		grow := step{Kind: "call", Callee: []string{"grow", "hostgrow", "hostreenter"}[r.Intn(3)], Pages: uint32(1 + r.Intn(int(t.MaxPages)))}
 		if t.Imported && r.Bool() {
 			grow.Callee = "xgrow"
 		}
@@ -496,7 +498,7 @@ func genWrapFamily(r *core.Rng, t *template, size uint64) *template {
 		case 9:
 			out = append(out, step{Kind: "call", Callee: []string{"nop", "hostnop"}[r.Intn(2)]})
 		case 10:
-			out = append(out, step{Kind: "call", Callee: []string{"grow", "hostgrow"}[r.Intn(2)], Pages: uint32(r.Intn(2))})
+			out = append(out, step{Kind: "call", Callee: []string{"grow", "hostgrow", "hostreenter"}[r.Intn(3)], Pages: uint32(r.Intn(2))})
 		case 11:
 			out = append(out, step{Kind: "grow", Pages: uint32(r.Intn(2))})
 		}
@@ -671,13 +673,17 @@ func (g *tgen) between() []step {
 	for i := 0; i < n; i++ {
 		switch r.Intn(10) {
 		case 0, 1, 2:
+			if r.Chance(1, 4) {
+				out = append(out, step{Kind: "call", Callee: "hostwrite", SrcK: uint32(pickInb(r, g.size, 4)), FillVal: r.U32()})
+				continue
+			}
 			c := []string{"nop", "hostnop", "nop"}
 			if g.t.Imported {
 				c = append(c, "xnop")
 			}
 			out = append(out, step{Kind: "call", Callee: c[r.Intn(len(c))]})
 		case 3, 4, 5:
-			c := []string{"grow", "hostgrow", "grow"}
+			c := []string{"grow", "hostgrow", "hostgrow", "hostreenter"}
 			if g.t.Imported {
 				c = append(c, "xgrow", "xgrow")
 			}
@@ -870,7 +876,7 @@ func (t *template) ceilings(p1 uint32) (ceil []uint64, atomic []bool) {
 // "distinct templates" evidence is the number of distinct shapes.
 func (t *template) shape() string {
 	var sb strings.Builder
-	fmt.Fprintf(&sb, "%smem=%d/%v/%v/%v|", t.Family, t.InitPages, t.HasMax, t.Shared, t.Imported)
+	fmt.Fprintf(&sb, "%smem=%d/%v/%v/%v/%v|", t.Family, t.InitPages, t.HasMax, t.Shared, t.Imported, t.Private)
 	for _, v := range t.Vars {
 		sb.WriteString(v.describe() + ";")
 	}
@@ -941,18 +947,20 @@ func (t *template) flat() []*step {
 // ---- wasm emission ----
 
 const (
-	fnHostNop  = 0
-	fnHostGrow = 1
+	fnHostNop     = 0
+	fnHostGrow    = 1
+	fnHostReenter = 2 // host function that calls back into the exported guest function "growx" (memory.grow)
+	fnHostWrite   = 3 // host function that writes 4 bytes through api.Memory
 )
 
 type funcIdx struct{ xnop, xgrow, nop, grow, f, probe uint32 }
 
 func (t *template) indices() funcIdx {
 	var x funcIdx
-	n := uint32(2)
+	n := uint32(4)
 	if t.Imported {
-		x.xnop, x.xgrow = 2, 3
-		n = 4
+		x.xnop, x.xgrow = 4, 5
+		n = 6
 	}
 	x.nop, x.grow, x.f, x.probe = n, n+1, n+2, n+3
 	return x
@@ -978,13 +986,17 @@ func (t *template) module() []byte {
 	m := &wenc.Module{}
 	m.ImportFunc("host", "nop", nil, nil)
 	m.ImportFunc("host", "grow", []wenc.ValType{wenc.I32}, []wenc.ValType{wenc.I32})
+	m.ImportFunc("host", "reenter", []wenc.ValType{wenc.I32}, []wenc.ValType{wenc.I32})
+	m.ImportFunc("host", "write", []wenc.ValType{wenc.I32, wenc.I32}, nil)
 	if t.Imported {
 		m.ImportFunc("env", "nop", nil, nil)
 		m.ImportFunc("env", "grow", []wenc.ValType{wenc.I32}, []wenc.ValType{wenc.I32})
 		m.Imports = append(m.Imports, wenc.Import{Module: "env", Name: "mem", Kind: wenc.ExtMemory, Mem: t.limits()})
 	} else {
 		m.Mems = []wenc.Limits{t.limits()}
-		m.Exports = append(m.Exports, wenc.Export{Name: "mem", Kind: wenc.ExtMemory, Idx: 0})
+		if !t.Private { // a private memory is observed through the allocator's mapping only
+			m.Exports = append(m.Exports, wenc.Export{Name: "mem", Kind: wenc.ExtMemory, Idx: 0})
+		}
 	}
 	m.Globals = []wenc.Global{{Type: wenc.GlobalType{Type: wenc.I32, Mutable: true}, Init: wenc.ConstI32(0)},
 		{Type: wenc.GlobalType{Type: wenc.I64, Mutable: true}, Init: wenc.ConstI64(0)}}
@@ -995,7 +1007,8 @@ func (t *template) module() []byte {
 	m.DataCount = true
 	x := t.indices()
 	m.AddFunc(nil, nil, nil, (&wenc.Code{}).End().B)
-	m.AddFunc([]wenc.ValType{wenc.I32}, []wenc.ValType{wenc.I32}, nil, (&wenc.Code{}).LocalGet(0).MemoryGrow().End().B)
+	gx := m.AddFunc([]wenc.ValType{wenc.I32}, []wenc.ValType{wenc.I32}, nil, (&wenc.Code{}).LocalGet(0).MemoryGrow().End().B)
+	m.ExportFunc("growx", gx)
 
 	// f
 	locals := append([]wenc.ValType(nil), t.nLocals...)
@@ -1103,6 +1116,10 @@ func (t *template) emitSteps(c *wenc.Code, ss []step, x funcIdx, resBase uint32)
 				c.I32Const(int32(s.Pages)).Call(x.grow).Drop()
 			case "hostgrow":
 				c.I32Const(int32(s.Pages)).Call(fnHostGrow).Drop()
+			case "hostreenter":
+				c.I32Const(int32(s.Pages)).Call(fnHostReenter).Drop()
+			case "hostwrite":
+				c.I32Const(int32(s.SrcK)).I32Const(int32(s.FillVal)).Call(fnHostWrite)
 			case "xgrow":
 				c.I32Const(int32(s.Pages)).Call(x.xgrow).Drop()
 			}
